@@ -38,6 +38,8 @@ type Party interface {
 	unlock()
 	setStoredBeforeStart()
 	storedBeforeStart() bool
+	setFailed(*Error)
+	failed() *Error
 }
 
 type BaseParty struct {
@@ -46,6 +48,8 @@ type BaseParty struct {
 	FirstRound Round
 	// a message was stored while no round was set (i.e. before Start)
 	storedEarly bool
+	// the error with which a round refused to start; the run is over for this party
+	startErr *Error
 }
 
 func (p *BaseParty) Running() bool {
@@ -117,6 +121,14 @@ func (p *BaseParty) storedBeforeStart() bool {
 	return p.storedEarly
 }
 
+func (p *BaseParty) setFailed(err *Error) {
+	p.startErr = err
+}
+
+func (p *BaseParty) failed() *Error {
+	return p.startErr
+}
+
 func (p *BaseParty) lock() {
 	p.mtx.Lock()
 }
@@ -153,6 +165,7 @@ func BaseStart(p Party, task string, prepare ...func(Round) *Error) *Error {
 		common.Logger.Debugf("party %s: %s round %d finished", p.PartyID(), task, 1)
 	}()
 	if err := p.round().Start(); err != nil {
+		p.setFailed(err)
 		return err
 	}
 	// messages delivered before Start() were only stored: let them complete rounds now,
@@ -166,6 +179,7 @@ func BaseStart(p Party, task string, prepare ...func(Round) *Error) *Error {
 		}
 		if p.advance(); p.round() != nil {
 			if err := p.round().Start(); err != nil {
+				p.setFailed(err)
 				return err
 			}
 		}
@@ -185,6 +199,10 @@ func BaseUpdate(p Party, msg ParsedMessage, task string) (ok bool, err *Error) {
 		return ok, err
 	}
 	p.lock() // data is written to P state below
+	// a round refused to start (a peer's message did not verify): this party must not go on with half-computed state
+	if err := p.failed(); err != nil {
+		return r(false, err)
+	}
 	common.Logger.Debugf("party %s received message: %s", p.PartyID(), msg.String())
 	if p.round() != nil {
 		common.Logger.Debugf("party %s round %d update: %s", p.PartyID(), p.round().RoundNumber(), msg.String())
@@ -200,6 +218,7 @@ func BaseUpdate(p Party, msg ParsedMessage, task string) (ok bool, err *Error) {
 		if p.round().CanProceed() {
 			if p.advance(); p.round() != nil {
 				if err := p.round().Start(); err != nil {
+					p.setFailed(err)
 					return r(false, err)
 				}
 				rndNum := p.round().RoundNumber()
